@@ -6,7 +6,7 @@ import vlib
 SEM = os.path.join(vlib.VERIF, "spec", "sem")
 
 
-def run_scenarios(res, scen_list, monitor, spec_dir=SEM, tag="", timeout=1500, sub="seq", par=16, procs=1, race=False, crash_is_violation=True, relayout_p=0.0, retype_p=0.0):
+def run_scenarios(res, scen_list, monitor, spec_dir=SEM, tag="", timeout=1500, sub="seq", par=16, procs=1, race=False, crash_is_violation=True, relayout_p=0.0, retype_p=0.0, rename_p=0.0):
     """scen_list: list of scenario dicts without 'tr'. Returns number of traces validated. Adds violations to res."""
     if not scen_list:
         return 0
@@ -18,6 +18,10 @@ def run_scenarios(res, scen_list, monitor, spec_dir=SEM, tag="", timeout=1500, s
     if relayout_p > 0:
         import random, layout
         lrng = random.Random(vlib.seed() * 7919 + len(scen_list))
+    nrng = None
+    if rename_p > 0:
+        import random
+        nrng = random.Random(vlib.seed() * 15485863 + len(scen_list))
     trng = None
     if retype_p > 0:
         import random
@@ -25,6 +29,8 @@ def run_scenarios(res, scen_list, monitor, spec_dir=SEM, tag="", timeout=1500, s
     with open(sp, "w") as f:
         for i, sc in enumerate(scen_list):
             sc = dict(sc, tr=i + 1)
+            if nrng is not None and not sc.get("norename") and "sql" in sc and nrng.random() < rename_p:
+                sc = rename_cols(sc, nrng)
             if trng is not None and not sc.get("noretype") and trng.random() < retype_p:
                 # the same numbers under other Go types (int / int32 / int64 / float32 / float64): values, not types, decide
                 sc["rows"] = [retype_row(r, trng) for r in sc.get("rows", [])]
@@ -121,6 +127,37 @@ def run_scenarios(res, scen_list, monitor, spec_dir=SEM, tag="", timeout=1500, s
         if len(scen) > 1:
             res.cov["samples"].append(scen[len(scen)])
     return n
+
+
+RENAMES = {"x": ["xor", "sensor", "band", "x_1", "order1", "X"], "y": ["yand", "iso", "limit_y", "y2", "nulls"], "s": ["desc1", "likes", "s_text", "asc"],
+           "v": ["vor", "valueand", "v_1"], "w": ["wor", "width"]}
+
+
+def rename_cols(sc, rng):
+    """the same scenario with its data columns under other names (names ending in or / and, keyword-like names, digits, upper case):
+    SQL text (outside quoted parts) and rows are renamed together; the driver maps the names back when it logs"""
+    import copy, re
+    present = [c for c in RENAMES if any(c in r for r in sc.get("rows", []))]
+    if not present:
+        return sc
+    mp = {c: rng.choice(RENAMES[c]) for c in present if rng.random() < 0.6}
+    if not mp:
+        return sc
+    sc = copy.deepcopy(sc)
+    parts = re.split(r"('[^']*'|\"[^\"]*\"|`[^`]*`)", sc["sql"])
+    for i, p in enumerate(parts):
+        if p[:1] == "`" and p[1:-1] in mp:
+            parts[i] = "`" + mp[p[1:-1]] + "`"
+            continue
+        if p[:1] in ("'", '"', "`"):
+            continue
+        for c, n in mp.items():
+            p = re.sub(r"(?<![\w.'])%s(?![\w(])" % c, n, p)
+        parts[i] = p
+    sc["sql"] = "".join(parts)
+    sc["colmap"] = mp      # the driver logs rows under their original names: monitors and meta stay as they are
+    sc["rows"] = [{mp.get(k, k): v for k, v in r.items()} for r in sc["rows"]]
+    return sc
 
 
 def retype_row(r, rng):
